@@ -170,6 +170,28 @@ pub fn run_history(p: Prop, case: &HistCase, st: &mut Stats, known_open: &dyn Fn
                 return Err(f);
             }
         }
+        // --- open finding KF-C13-1: duplicate() of a model whose files have different versions filters the content by the
+        // lowest version and then pairs original and copy element by element (zip of two DFS walks) to transfer the file
+        // sets: the copy has another shape, so the file sets land on the wrong elements. The history ends.
+        if o.code == op::DUPLICATE && res.ok && w.models.len() >= 2 {
+            let orig = w.models[res.model].clone();
+            let dup = w.models[w.models.len() - 1].clone();
+            let mut vs: Vec<String> = orig.files().map(|f| format!("{:?}", f.version())).collect();
+            vs.sort();
+            vs.dedup();
+            if vs.len() >= 2 {
+                let a: Vec<autosar_data::ElementName> = orig.elements_dfs().map(|(_, e)| e.element_name()).collect();
+                let b: Vec<autosar_data::ElementName> = dup.elements_dfs().map(|(_, e)| e.element_name()).collect();
+                if a != b {
+                    w.rescan();
+                    let f = fail(p, "duplicate:mixed-version-model:content-filtered-by-lowest-file-version", format!("the model has files of versions {vs:?}; the duplicate has {} elements, the original {}", b.len(), a.len()), &w, case);
+                    if known_open(&f.signature) {
+                        st.class("ended:duplicate-of-mixed-version-model(KF-C13-1)");
+                    }
+                    return Err(f);
+                }
+            }
+        }
         st.class(&format!("op:{}:{}", op::NAMES[o.code as usize], if res.ok { "ok" } else { "err" }));
         w.rescan();
         // --- open finding KF-C11-1: a load rejected in the merge phase leaves partial imports behind; for the
